@@ -59,19 +59,24 @@ def decide(prop, tier, seed, scratch, repo, need_witness_for=()):
     groups = list(P.get("kani", []))
     info = {"bounded": [], "trusted": [], "cmd": "", "solver_ms": 0, "witnesses": {}}
     obligations, violations, undecided = [], [], []
-    if not groups:
+    if not groups and not need_witness_for:
         return obligations, violations, undecided, info
     # harness selection for this property/tier
     sel = []
+    need_units = set(v["unit"] for v in need_witness_for if v.get("unit"))
     for g in groups:
         for h in registry.KANI_GROUPS[g]["harnesses"]:
             if prop not in h.get("props", [prop]):
                 continue
             if h.get("tier", "quick") == "thorough" and tier != "thorough":
-                # a thorough-only harness is still run when it is the witness harness of a failing Verus obligation
-                if not any(v["unit"] in h.get("witness_units", []) for v in need_witness_for):
-                    continue
+                continue
             sel.append((g, h))
+    # witness harnesses of units whose Verus obligations failed / whose proof script was lost: any group, any tier;
+    # they only supply counterexamples (role witness-only) unless they also belong to this property
+    for g, G in registry.KANI_GROUPS.items():
+        for h in G["harnesses"]:
+            if need_units & set(h.get("witness_units", [])) and not any(h2["name"] == h["name"] for _, h2 in sel):
+                sel.append((g, dict(h, role="witness-only")))
     if not sel:
         return obligations, violations, undecided, info
     crate, err = make_copy(repo, scratch, sorted(set(g for g, _ in sel)))
@@ -101,7 +106,7 @@ def decide(prop, tier, seed, scratch, repo, need_witness_for=()):
         res = results.get(full)
         kind = h.get("kind", "complete")
         rec = {"obligation": f"kani::{h['name']}", "backend": "kani+cbmc(cadical)", "kind": kind}
-        if kind != "complete":
+        if kind != "complete" or h.get("role") == "witness-only":
             rec["bounded"] = True
         if res is None:
             rec["status"] = "missing"
